@@ -18,28 +18,43 @@ deltaToTmunu): for every point with T > 0
     R1 = (T30 - c1)/|c1|,  R2 = (T33 - c2)/(|c2| + w)
 
 Tolerances (all evaluated for the point at hand):
-    tau1 = 8 * (rounding bound of the code's 4th-order finite-difference dV/dT, which is
+    tau1 = 32 * (rounding bound of the code's 4th-order finite-difference dV/dT, which is
            exact on T^4 polynomials otherwise) + 64 eps.  The code solves T30 = c1 for v
            algebraically, so R1 only sees the difference between its FD enthalpy and the
-           analytic one.
-    tau2 = spread of the oracle's own T33 (on the T30 shell) over T +- 2 (xtol + rtol T)
-           with the point solver's xtol = 1e-10, rtol = errTol/10 (DESIGN 2.3-2)
-           + tau1-type rounding + 4 (|r1| + |r2|) where r1, r2 are the flux residuals of
-           the hydrodynamic matching on the closed-form equation of state (c1, c2 are
-           only that consistent; at a hybrid's sonic point the existence of a root
-           depends on them at exactly that level).
-    far field: |T[-1]-T+|/T+, |v[-1]+v+|, |T[0]-T-|/T-, |v[0]+v-| <=
-           10 max_i sech^2(z_end/L_i + delta_i) + K_FAR (rtol + xtol/T) + 1e-4
-           + 20 (|r1| + |r2| + eps_c), the perturbation terms multiplied by the conditioning
-           max(1, 1/|1 - v^2/c_s^2|) of the flow equations (eps_c = relative deviation of
-           c1, c2 from the closed-form fluxes at (T+, v+): the tables behind c1, c2 are only
-           that accurate, 1e-4..1e-3 for s ~ 1e-2)   [hybrid, behind the wall: the sonic point is a double
-           root, every perturbation p enters as a square root -> + 3 sqrt(p) + 4e-5/T-
-           (minimize_scalar's absolute xatol)].  The two end points are judged whatever
-           happened in the middle of the wall; "no solution" at an end point is a violation
-           (the matching values solve both equations there).  Observed on the unchanged
-           tree: deviation/tolerance <= 0.45 (deflagration), 0.1 (detonation), 0.5 (hybrid);
-           a wrong root branch gives >= 4e-2 absolute.
+           analytic one (observed |R1| <= 1e-10, <= 0.45 of the bound with factor 8).
+    tau2 (point returned from a root): spread of the oracle's own T33 (on the T30 shell)
+           over T +- 2 (xtol + rtol T) with the point solver's xtol = 1e-10,
+           rtol = errTol/10 (DESIGN 2.3-2) + tau1-type rounding + 4 (|r1| + |r2|), r1, r2
+           the flux residuals of the hydrodynamic matching on the closed-form equation of
+           state (c1, c2 are only that consistent; at a hybrid's sonic point the existence
+           of a root depends on them at exactly that level).  Observed <= 0.22 of tau2.
+    tau2 (point returned from the "minimum >= 0, no root" branch, observed through a proxy
+           for the name ``scipy`` in WallGo.equationOfMotion that logs root_scalar /
+           minimize_scalar calls): errTol/10 relative + the same rounding terms, i.e. a
+           returned minimiser counts as a solution when it misses c2 by less than the
+           relative tolerance the root finder is configured for.
+    points with T > 0 are judged one by one; the recorder raises successTemperatureProfile
+           before each point call and restores the conjunction afterwards, so a point
+           routine that lowers the flag itself (proposed fix) is seen as "reported failure"
+           and not judged.
+    contract on findHydroBoundaries: velocityMid == -(v+ + v-)/2 (8 eps), c1/c2 within
+           5e-3 of -w g^2 v+ / p + w g^2 v+^2 on the closed-form high-T phase (tables vs
+           closed form observed <= 2e-4); the oracle's boost uses its own -(v+ + v-)/2.
+    far field (the two end points, judged whatever happened in the middle of the wall):
+           dev = max(|T-T_ref|/T_ref, |v+v_ref|) against (T+, -v+) at the last and (T-, -v-)
+           at the first grid point;
+           tol = [K_REF r_ref + K_FAR (rtol + xtol/T)] / max(|1 - v_ref^2/c_s^2|, 0.02) + 1e-6
+           where r_ref = |R1| + |R2| of the *matching values themselves* in the oracle's
+           closed-form equations at that grid point (this measures at once the field tail
+           sech^2(z_end/L+delta), an end point slightly off the minimum, the accuracy of
+           the tables behind c1/c2 and of the matching).  DESIGN's 10 sech^2 + 1e-4 fired
+           on correct code for s ~ 1e-2, where findLocalMinimum's absolute tolerance leaves
+           the phases 1e-3 off and r_ref ~ 3e-4.  Hybrid, behind the wall: the sonic point
+           is a double root, a perturbation p moves it by ~sqrt(p):
+           + 3 sqrt(pert) + 4e-5/T- (minimize_scalar's absolute xatol).
+           "No solution" at an end point is a violation (a solution exists there).
+           K_REF = 20 calibrated: observed dev/tol <= 0.46 with K_REF = 10 (quick seeds 0-4)
+           (far_over_tol); a wrong root branch gives dev >= 4e-2 at r_ref <= 1e-3.
 """
 from __future__ import annotations
 
@@ -70,14 +85,17 @@ ASSUMPTIONS = [
     "P_matching: the matching conserves both fluxes on the closed-form EOS to 2e-3 "
     "(else C02/C10 business); profiles failing a predicate are counted, not judged",
     "scipy brentq returns a point within xtol + rtol |x| of a sign change",
-    "far-field tolerance constants are calibrated (see module docstring), all other "
-    "tolerances are propagated",
+    "far-field tolerance: propagated from the residual of the matching values at the end "
+    "grid point, with calibrated safety factors K_REF = 20, K_FAR = 5 (see module docstring)",
+    "unit factors outside [1e-2, 1e2] are not exercised (the branch test |Tn - T+| < 1e-10 "
+    "and minimize_scalar's xatol = 1e-5 are absolute in temperature units)",
 ]
 CASE_TIMEOUT = 900
 CHUNK = 1
 MS = (20, 30, 40)
 ERRTOLS = (1e-3, 1e-5, 1e-8)
 K_FAR = 5.0
+K_REF = 20.0
 EPS = float(np.finfo(float).eps)
 PARTICLE = {"coupling": 0.5, "field": 0, "statistics": "Fermion", "dofs": 12}
 
@@ -563,13 +581,19 @@ def _judge_profile(case, pot, eom, ctx, branch, c1, c2, Tp, Tm, vp, vm, vmid, fi
             continue
         if not ok:
             continue
-        # consistency of the boundary constants with the closed-form potential (eps_c: c1, c2
-        # against the closed-form fluxes at (T+, v+); mr: the matching on the closed-form
-        # EOS) and the field tail perturb the two equations; the solution moves by that
-        # times the conditioning 1/|1 - v^2/c_s^2| of the flow equations
+        # how well do the matching values solve the two equations *at this grid point*
+        # (closed-form potential, actual fields and moments there)?  This one residual
+        # contains the field tail, an end point that is slightly off the minimum, the
+        # accuracy of the tables behind c1/c2 and of the matching; the solution is away
+        # from (T_ref, -v_ref) by about that times the conditioning 1/|1 - v^2/c_s^2|.
+        t30o, t33o = R.tout_direct(arr[0][:, k], arr[1][:, k], arr[2][:, k], arr[3][:, k],
+                                   [0.0] * len(dofs), dofs, vmid)
+        pe = R.PointStress(pot, fields[k], dPhidz[k], t30o, t33o)
+        r_ref = abs(pe.t30(Tref, -vref) - c1) / abs(c1) + \
+            abs(pe.t33(Tref, -vref) - c2) / (abs(c2) + abs(pe.w(Tref)))
         cond = mres[3] if side == "behind" else mres[4]
-        pert = 10 * tails[side] + K_FAR * (rtol_root + xtol_root / Tref) + 20 * (mr + mres[2])
-        tol = pert * cond + 1e-4
+        pert = K_REF * r_ref + K_FAR * (rtol_root + xtol_root / Tref)
+        tol = pert * cond + 1e-6
         if branch == "hybrid" and side == "behind":
             # behind a hybrid the flow is sonic: (T-, v-) is the double root of the T33
             # equation, every perturbation p of the equation (field tail, matching
